@@ -95,12 +95,17 @@ def run_case(ctx, case):
         else:
             subs.append((kind, op))
         stop = False
+        pre_comps = None
+        if kind == "manual":
+            # what is in the source wells before the aspirate (removal does not change a mixture)
+            s_ids, _d, _v = progmon.triples_of(op)
+            pre_comps = [progmon.interp_fractions(interp, op["src"], descs[op["src"]], s) for s in s_ids]
         for sk, sub in subs:
             if sk == "dispense" and sub is None:
                 s_ids, d_ids, vols = progmon.triples_of(op)
                 comps = None
                 if op.get("known", True):
-                    comps = [progmon.interp_fractions(interp, op["src"], descs[op["src"]], s) for s in s_ids]
+                    comps = pre_comps
                 sub = {"op": "dispense", "lw": op["dst"], "wells": op["dw"], "vol": op["vol"], "label": op.get("label"),
                        "comps": enc(comps), "kw": op.get("kw", {})}
                 if not op.get("known", True):
@@ -118,12 +123,14 @@ def run_case(ctx, case):
             fed = feeder.feed(out.appended, op=sub, fix=fix)
             if any(r.type in ("A", "D", "R") for r, _ in fed):
                 moved = True
-            if sk == "dispense" and kind == "manual" and not op.get("known", True):
-                # the harness withheld the composition from robotools: the liquid is "unknown" to the
-                # tracking, so the wells that received it are excluded from composition comparison
+            if sk == "dispense" and kind == "manual":
+                # where the harness withheld the composition from robotools (known=False, or no
+                # composition could be stated for that element) the liquid is "unknown" to the
+                # tracking: the wells that received it are excluded from composition comparison
                 _s, d_ids, vols = progmon.triples_of(op)
-                for d_, v_ in zip(d_ids, vols):
-                    if v_ > 0:
+                withheld = [not op.get("known", True) or pre_comps is None or pre_comps[i] is None for i in range(len(d_ids))]
+                for d_, v_, wh in zip(d_ids, vols, withheld):
+                    if v_ > 0 and wh:
                         from ..attach import real_index
 
                         interp.racks[op["dst"]].wells[real_index(descs[op["dst"]], d_)].tainted = True
